@@ -192,7 +192,10 @@ var tlsCredKinds = []string{"plaintext", "tls-no-client-cert", "self-signed-perm
 	// subject is one client and whose other name-bearing fields mention another: the identity is the subject.
 	"issued-subject-client-test02-alt-names-client-test01-and-own", "issued-subject-client-test03-alt-name-client-test01",
 	"issued-subject-client-test02-alt-name-client-test01-only", "issued-subject-client-test03-organisation-and-unit-client-test01",
-	"issued-subject-client-test03-email-and-uri-client-test01", "issued-empty-subject-alt-name-client-test01"}
+	"issued-subject-client-test03-email-and-uri-client-test01", "issued-empty-subject-alt-name-client-test01",
+	// the subject is a permitted client's name in another case (names are compared as written), and a certificate without a
+	// subject name followed in the chain by a self-made certificate that bears one
+	"issued-subject-CLIENT-TEST01-in-upper-case", "issued-empty-subject-followed-by-self-made-client-test01"}
 
 // issuedIdentity is the subject name of the "issued-..." credentials.
 var issuedIdentity = map[string]string{
@@ -202,6 +205,8 @@ var issuedIdentity = map[string]string{
 	"issued-subject-client-test03-organisation-and-unit-client-test01": "client-test03",
 	"issued-subject-client-test03-email-and-uri-client-test01":         "client-test03",
 	"issued-empty-subject-alt-name-client-test01":                      "",
+	"issued-subject-CLIENT-TEST01-in-upper-case":                       "CLIENT-TEST01",
+	"issued-empty-subject-followed-by-self-made-client-test01":         "",
 	"issued-subject-client-test01-alt-name-signer-test02":              "client-test01",
 	"issued-subject-client-test03-alt-names-signer-test02-and-own":     "client-test03",
 }
@@ -299,6 +304,9 @@ func (w *tlsWorld) dial(srv *tlsServer, cred string) (*grpc.ClientConn, error) {
 		c, err := mkIssued(cred)
 		if err != nil {
 			return nil, fmt.Errorf("issuing %s: %w", cred, err)
+		}
+		if strings.HasSuffix(cred, "-followed-by-self-made-client-test01") {
+			c.Certificate = append(c.Certificate, mkLeaf("client-test01", nil, nil, false).Certificate[0])
 		}
 		cfg.Certificates = []tls.Certificate{c}
 	}
